@@ -33,6 +33,8 @@ Inductive expr :=
 | Add (l r : expr)
 | CallE (f : expr) (a : expr)                    (* unary call: enough for the spike *)
 | Par (e : expr)                                 (* parentheses written by the user: not an identifier, not a [+] *)
+| MCall0 (o : expr) (m : string)                 (* method call o.m() *)
+| CallT0 (f this : expr)                         (* f.call(this) *)
 | MCall1 (o : expr) (m : string) (a : expr)      (* method call o.m(a) *)
 | Get (o : expr) (m : string)                    (* o.m, as the rewriter reads the function to call *)
 | CallT1 (f this a : expr)                       (* f.call(this, a) *)
@@ -81,6 +83,10 @@ Fixpoint eval (e : expr) (s : st) : out * st :=
   | Add l r => bind (eval l s) (fun a s1 => bind (eval r s1) (fun b s2 => do_add a b s2))
   | CallE f a => bind (eval f s) (fun vf s1 => bind (eval a s1) (fun va s2 => fire (EvCall vf [va]) s2))
   | Par e => eval e s
+  | MCall0 o m =>
+      bind (eval o s) (fun vo s1 => bind (fire (EvGet vo m) s1) (fun vf s2 => fire (EvCallT vf vo []) s2))
+  | CallT0 f this =>
+      bind (eval f s) (fun vf s1 => bind (eval this s1) (fun vt s2 => fire (EvCallT vf vt []) s2))
   | MCall1 o m a =>
       bind (eval o s) (fun vo s1 => bind (fire (EvGet vo m) s1) (fun vf s2 =>
       bind (eval a s2) (fun va s3 => fire (EvCallT vf vo [va]) s3)))
@@ -179,6 +185,10 @@ Definition rw_mcall (o' : expr) (m : string) (a' : expr) (c2 : nat) : expr * nat
   (wrap (br ++ [(c3, Get r m)] ++ ba)
         (Hook (CallT1 f r a2) ([f; r] ++ match arg_act a' with Stay => [] | _ => [a2] end)), c5).
 
+Definition rw_mcall0 (o' : expr) (m : string) (c1 : nat) : expr * nat :=
+  let '(r, br, c3) := if is_lit o' then (o', [], c1) else (Tmp c1, [(c1, o')], S c1) in
+  (wrap (br ++ [(c3, Get r m)]) (Hook (CallT0 (Tmp c3) r) [Tmp c3; r]), S c3).
+
 Fixpoint rw (e : expr) (c : nat) : expr * nat :=
   match e with
   | Add l r =>
@@ -187,6 +197,9 @@ Fixpoint rw (e : expr) (c : nat) : expr * nat :=
       rw_add l' r' c2
   | CallE f a => let '(f', c1) := rw f c in let '(a', c2) := rw a c1 in (CallE f' a', c2)
   | Par x => let '(x', c1) := rw x c in (Par x', c1)
+  | MCall0 o m =>
+      let '(o', c1) := rw o c in
+      if instr m && (negb (is_lit o') || lit_ok m) then rw_mcall0 o' m c1 else (MCall0 o' m, c1)
   | MCall1 o m a =>
       let '(o', c1) := rw o c in
       let '(a', c2) := rw a c1 in
@@ -202,6 +215,7 @@ Fixpoint src (e : expr) : Prop :=
   | Add l r => src l /\ src r
   | CallE f a => src f /\ src a
   | Par x => src x
+  | MCall0 o _ => src o
   | MCall1 o _ a => src o /\ src a
   | _ => False
   end.
@@ -214,6 +228,8 @@ Fixpoint temps_in (lo hi : nat) (e : expr) : Prop :=
   | Add l r => temps_in lo hi l /\ temps_in lo hi r
   | CallE f a => temps_in lo hi f /\ temps_in lo hi a
   | Par x => temps_in lo hi x
+  | MCall0 o _ => temps_in lo hi o
+  | CallT0 f t => temps_in lo hi f /\ temps_in lo hi t
   | MCall1 o _ a => temps_in lo hi o /\ temps_in lo hi a
   | Get o _ => temps_in lo hi o
   | CallT1 f t a => temps_in lo hi f /\ temps_in lo hi t /\ temps_in lo hi a
